@@ -62,3 +62,46 @@ Proof.
     unfold inflight, runner_active, sum_cnt, inflight_pcs in Hin. rewrite R in Hin. cbn in Hin.
     rewrite z, z0, z1, z2, z3, z4, z5, z6, z7, z8, z9, z10, z11 in Hin. cbn in Hin. discriminate.
 Qed.
+
+(* ------------------------------------------------------------------ the mutex is never held by a blocked goroutine *)
+Definition holding_pcs : list pc := [SHold; SSet1a; SSend; SSet2a; SSel; SUnl; RHold; RUnlRefuse; RUnlNil; RUnlGo].
+Definition holder_can_step (v : variant) (cfg : config) (s : state) : bool :=
+  existsb (fun p => negb (cnt s p =? 0) && is_some (cstep v s p)) holding_pcs
+  || (r_holds (runner s) && is_some (rstep cfg s)).
+
+Lemma holder_intro : forall v cfg s p,
+  In p holding_pcs -> cnt s p <> 0 -> cstep v s p <> None -> holder_can_step v cfg s = true.
+Proof.
+  intros v cfg s p Hin Hc Hs. unfold holder_can_step. apply Bool.orb_true_iff. left.
+  apply existsb_exists. exists p. split; [exact Hin|].
+  apply Bool.andb_true_iff. split.
+  - apply Bool.negb_true_iff. apply Nat.eqb_neq. exact Hc.
+  - destruct (cstep v s p); [reflexivity|congruence].
+Qed.
+
+Ltac holder_case s P t :=
+  let z := fresh "z" in
+  destruct (Nat.eq_dec (cnt s P) 0) as [z|z];
+  [| apply (fun v cfg => @holder_intro v cfg s P); [cbn; tauto|exact z|];
+     unfold cstep; rewrite (proj2 (Nat.eqb_neq _ _) z); cbn; solve [t] ].
+
+Lemma lock_holder_lemma : forall cfg s,
+  Inv1 s -> lock s = true -> holder_can_step repaired cfg s = true.
+Proof.
+  intros cfg s [L S0 S1 Q1 Q2 X1 X2 X3 X4 A1 A2 A3 E W K V B] Hl. unfold holders in *. rewrite Hl in L. cbn in L.
+  holder_case s SHold ltac:(destruct (exitReq s), (is_some (req s)); discriminate).
+  holder_case s SSet1a ltac:(discriminate).
+  holder_case s SSend ltac:(destruct X2 as [-> _]; [lia|discriminate]).
+  holder_case s SSet2a ltac:(discriminate).
+  holder_case s SSel ltac:(discriminate).
+  holder_case s SUnl ltac:(discriminate).
+  holder_case s RHold ltac:(cbn; destruct (is_some (req s) || started s), (exitReq s); discriminate).
+  holder_case s RUnlRefuse ltac:(discriminate).
+  holder_case s RUnlNil ltac:(discriminate).
+  holder_case s RUnlGo ltac:(discriminate).
+  unfold holder_can_step. apply Bool.orb_true_iff. right.
+  destruct (runner s) eqn:R; cbn in L; try lia; unfold rstep; rewrite R; cbn.
+  - destruct (awaitc s =? 0); reflexivity.
+  - reflexivity.
+  - reflexivity.
+Qed.
